@@ -292,6 +292,12 @@ class Filer(hioing.Mixin):
         if os.path.isabs(name):
             raise hioing.FilerError(f"Not relative {name=} path.")
 
+        for tail in (tailDirPath, altTailDirPath):  # path must stay inside head
+            rel = os.path.normpath(os.path.join(tail, base, name))
+            if rel == os.pardir or rel.startswith(os.pardir + os.sep):
+                raise hioing.FilerError(f"Path of {base=} and {name=} outside "
+                                        f"head directory.")
+
         if temp:
             headDirPath = tempfile.mkdtemp(prefix=self.TempPrefix,
                                            suffix=self.TempSuffix,
